@@ -40,6 +40,9 @@ MUTANTS = {
                 result = True
             break""")]),
     'cache_by_entity': ('has_perm', [('result = perm_cache.get(x)', 'result = perm_cache.get(entity)'), ('perm_cache[perm] = result', 'perm_cache[entity] = result')]),
+    'cache_by_perm': ('has_perm', [('result = perm_cache.get(x)', 'result = perm_cache.get(perm)')]),
+    'schema_attr_unchecked': ('Database._get_schema_dict', [('                if not can_view(user, attr): continue\n', '')]),
+    'schema_entity_unchecked': ('Database._get_schema_dict', [('            if not can_view(user, entity): continue\n', '')]),
     'view_without_edit': ('can_view', [("return has_perm(user, 'view', x) or has_perm(user, 'edit', x)", "return has_perm(user, 'view', x)")]),
     'edit_is_view': ('can_edit', [("return has_perm(user, 'edit', x)", "return has_perm(user, 'view', x)")]),
     'delete_is_edit': ('can_delete', [("return has_perm(user, 'delete', x)", "return has_perm(user, 'edit', x)")]),
